@@ -36,6 +36,9 @@ func (Engine) Gen(seed uint64, idx int, tier string) interface{} {
 	if tier == "thorough" && r.Chance(1, 3) {
 		depth = 5
 	}
+	if r.Chance(1, 15) {
+		depth = 6 + r.Intn(3) // deep nesting (the generator stops at 36 scopes)
+	}
 	sc := &Scenario{Prog: gen.GenScope(r, depth)}
 	sc.Orders = []simrt.MapOrder{{Kind: simrt.OrderAsc}, {Kind: simrt.OrderDesc}}
 	n := 4
@@ -119,7 +122,7 @@ func (Engine) Shrink(sci interface{}) []interface{} {
 
 func (Engine) Describe() harness.EngineInfo {
 	return harness.EngineInfo{
-		Rule:        "program = seeded nesting (depth<=4) of module/function/class/lambda/comprehension scopes over names a,b,c,d with planned roles (local, parameter, global, nonlocal, free) and statements bind/use/del/augassign/def with defaults/class with methods/lambda/comprehension; closures are called at definition time and again after the enclosing scope finished; 1 in 6 programs carries exactly one forbidden declaration. Each program is compiled and run under 6 (quick) or 10 (thorough) simulator-chosen map iteration orders (always ascending and descending). distinct = distinct program sources; non-trivial = at least one nested function or class scope",
+		Rule:        "program = seeded nesting (depth<=4, 1 in 15 programs 6-8) of module/function/class/lambda/comprehension scopes over names a,b,c,d with planned roles (local, parameter, global, nonlocal, free) and statements bind/use/del/augassign/def with defaults/class with methods/lambda/comprehension; closures are called at definition time and again after the enclosing scope finished; 1 in 6 programs carries exactly one forbidden declaration; 1 in 15 is padded with 257-266 extra module-level names/constants and as many extra locals per function (index arithmetic beyond 255). Each program is compiled and run under 6 (quick) or 10 (thorough) simulator-chosen map iteration orders (always ascending and descending). distinct = distinct program sources; non-trivial = at least one nested function or class scope",
 		Real:        []string{"parser", "symtable (scope analysis)", "compile", "vm", "py object model"},
 		Stubbed:     []string{"Go map iteration order in every range loop -> chosen by the simulator (asc, desc, rotation, seeded permutation per loop instance)", "reference semantics: CPython 3.11 running the same source"},
 		Assumptions: []string{"CPython 3.11 is the reference for Python's scoping rules; generated programs avoid constructs whose scoping differs between 3.4 and 3.11 (__class__/super(), PEP 572)", "use or assignment of a name before its global/nonlocal declaration is treated as forbidden (SyntaxError), as the property states and CPython >= 3.6 does"},
